@@ -374,17 +374,20 @@ def gen_f(rng):
 def fcase_literal(c):
     from pyins.inertial_sensor import Parameters
     em = construct(c['args'])
-    rs = RS([np.array(c['zT4']).reshape(3, 3) / 4.0, np.array(c['zb4']) / 4.0])
+    Z = np.zeros((2, 3))
+    rs = RS([np.array(c['zT4']).reshape(3, 3) / 4.0, np.array(c['zb4']) / 4.0, Z, Z])
     p = Parameters.from_EstimationModel(em, rs)
-    if rs.calls != [(3, 3), (3,)]:
+    p.apply(pd.DataFrame(Z, index=[0.0, 0.25], columns=GYRO), 'rate')
+    if rs.calls != [(3, 3), (3,), (2, 3), (2, 3)]:
         raise AssertionError(f"unexpected randn calls {rs.calls}")
     a = c['args']
-    return "(mk_fcase %s %s %s %s %s %s %s %s %s %s)" % (
+    return "(mk_fcase %s %s %s %s %s %s %s %s %s %s %s)" % (
         c_dy3(8, a['b']), c_dy3(8, a['n']), c_dy3(8, a['w']), c_dy33(16, a['s']),
         c_dy33(4, c['zT4']), c_dy3(4, c['zb4']),
         c_dy33(64, [to_int(x, 64) for x in np.asarray(p.transform).reshape(-1)]),
         c_dy3(32, [to_int(x, 32) for x in p.bias]),
-        c_dy3(8, [to_int(x, 8) for x in p.noise]), c_dy3(8, [to_int(x, 8) for x in p.bias_walk]))
+        c_dy3(8, [to_int(x, 8) for x in p.noise]), c_dy3(8, [to_int(x, 8) for x in p.bias_walk]),
+        c_strs(list(p.data_frame.columns)))
 
 
 # ----------------------------------------------------------------------------------------------
